@@ -15,7 +15,7 @@ func init() {
 		ID:          "C08",
 		Explanation: "Decided: (checks) every translation arm of an operation that the Go spec says must be able to panic carries its run-time check — index read/write on arrays, pointers to arrays, slices and strings, slice expressions, nil-map store, integer division, make bounds, slice-to-array conversion, type assertion, nil array pointer (read and write arm agree), close/send on nil or closed channels, comparison of uncomparable interface values; (errors) $throwRuntimeError is installed by runtime.init and raises a value with a RuntimeError method, TypeAssertionError has one too; (defer) defer evaluates callee and arguments at the statement, functions with defers get the deferral prologue and the finally epilogue under the same condition, builtins and js.Object methods are wrapped before delegation; LINK arity/guard obligations on the helpers. NOT decided: $callDeferred/$panic/$recover stack-depth logic, nested/re-panic behaviour, the position of the panic in the evaluation order.",
 		Assumptions: []string{"the natives overlay is analysed syntactically only"},
-		Rules:       []RuleFunc{ruleC08Checks, ruleC08Errors, ruleC08Defer, ruleC06Div0, ruleC03Close, ruleL3},
+		Rules:       []RuleFunc{ruleC08Checks, ruleC08Errors, ruleC08Defer, ruleC08DynScope, ruleC06Div0, ruleC03Close, ruleL3},
 	})
 }
 
@@ -400,5 +400,99 @@ func ruleC08Defer(c *ctx.Ctx, r *core.Reporter) {
 			return true
 		})
 		r.Check(ok, "analysis:HasDefer", c.Pos(fi.Pos()), "the analysis sets HasDefer when it visits a defer statement")
+	}
+}
+
+// ---------------------------------------------------------------------------
+// C08.dynscope: dynamically scoped run-time globals are saved and restored symmetrically
+
+func ruleC08DynScope(c *ctx.Ctx, r *core.Reporter) {
+	r.Begin("C08.dynscope", "F-PAIR", "every prelude global that $callDeferred assigns while unwinding is saved into a local at entry and restored in the finally block; every decrement of $stackDepthOffset is paired with an increment in a finally block of the same function", 4)
+	if !needPrelude(c, r) {
+		return
+	}
+	cd := c.PreludeFunc("$callDeferred")
+	if cd == nil {
+		r.Undecided("$callDeferred", "compiler/prelude/goroutines.js", "not found")
+		return
+	}
+	decls := c.PreludeDecls()
+	// globals assigned (=) inside $callDeferred
+	assigned := map[string]*ctx.JSNode{}
+	cd.Walk(func(n *ctx.JSNode) bool {
+		if n.Is("AssignmentExpression") && n.S("operator") == "=" {
+			if id := n.N("left").IdentName(); id != "" {
+				if _, isGlobal := decls[id]; isGlobal {
+					if _, seen := assigned[id]; !seen {
+						assigned[id] = n
+					}
+				}
+			}
+		}
+		return true
+	})
+	// saved: var outerX = $X at function top level; restored: $X = outerX inside the finalizer of the top-level try
+	saved := map[string]string{}
+	for v, ins := range localInits(cd) {
+		for _, in := range ins {
+			if g := in.IdentName(); g != "" {
+				if _, isGlobal := decls[g]; isGlobal && in.Parent.Is("VariableDeclarator") {
+					saved[g] = v
+				}
+			}
+		}
+	}
+	var finalizer *ctx.JSNode
+	for _, st := range cd.N("body").L("body") {
+		if st.Is("TryStatement") && st.N("finalizer") != nil {
+			finalizer = st.N("finalizer")
+		}
+	}
+	for _, g := range sortedKeys(assigned) {
+		v, isSaved := saved[g]
+		restored := false
+		if finalizer != nil && isSaved {
+			finalizer.Walk(func(n *ctx.JSNode) bool {
+				if n.Is("AssignmentExpression") && n.N("left").IdentName() == g && n.N("right").IdentName() == v {
+					restored = true
+				}
+				return true
+			})
+		}
+		r.Check(isSaved && restored, "save-restore:"+g, assigned[g].Pos(), fmt.Sprintf("$callDeferred assigns the global %s while running deferred calls of one frame: it is saved at entry (local %q, found=%v) and restored in the finally block (found=%v), so a nested unwinding that starts and ends inside a deferred call leaves the outer panic state unchanged", g, v, isSaved, restored))
+	}
+	if len(assigned) < 2 {
+		r.Undecided("save-restore:globals", cd.Pos(), fmt.Sprintf("expected $callDeferred to assign the panic depth and the panic value globals; found %d assigned globals", len(assigned)))
+	}
+	// $stackDepthOffset-- / ++ pairing
+	for _, fn := range allPreludeFuncs(c) {
+		var dec *ctx.JSNode
+		for _, st := range unconditionalStmts(fn) {
+			if st.Is("ExpressionStatement") {
+				e := st.N("expression")
+				if e.Is("UpdateExpression") && e.S("operator") == "--" && e.N("argument").IdentName() == "$stackDepthOffset" {
+					dec = e
+				}
+			}
+		}
+		if dec == nil {
+			continue
+		}
+		inc := false
+		fn.Walk(func(n *ctx.JSNode) bool {
+			if n != fn && n.IsFunc() {
+				return false
+			}
+			if n.Is("TryStatement") && n.N("finalizer") != nil {
+				n.N("finalizer").Walk(func(m *ctx.JSNode) bool {
+					if m.Is("UpdateExpression") && m.S("operator") == "++" && m.N("argument").IdentName() == "$stackDepthOffset" {
+						inc = true
+					}
+					return true
+				})
+			}
+			return true
+		})
+		r.Check(inc, "depth-offset-paired:"+ctx.JSFuncName(fn), dec.Pos(), "the stack-depth offset decremented on entry is incremented again in a finally block, on every exit (recover() compares stack depths)")
 	}
 }
